@@ -155,8 +155,10 @@ def install():
         m.get_device_mesh = get_device_mesh
 
 
-def run_world(W: int, fn, seed: int = 0, timeout: float = 40.0):
-    """fn(rank, world) in W threads.  Returns the World (logs, results, errors, verdict)."""
+def run_world(W: int, fn, seed: int = 0, timeout: float = 60.0, _retry: bool = True):
+    """fn(rank, world) in W threads.  Returns the World (logs, results, errors, verdict).
+    The watchdog is only a backstop (gated collectives are decided exactly); because it depends on wall-clock time, a watchdog
+    verdict is confirmed by one re-run with a much longer limit before it is reported (a loaded machine must not raise alarms)."""
     global _current_world
     install()
     from torch.testing._internal.distributed.multi_threaded_pg import ProcessLocalGroup
@@ -197,4 +199,6 @@ def run_world(W: int, fn, seed: int = 0, timeout: float = 40.0):
         for t in threads:
             t.join(5)
     _current_world = None
+    if world.verdict is not None and world.verdict[0] == "watchdog" and _retry:
+        return run_world(W, fn, seed, timeout=max(300.0, 5 * timeout), _retry=False)
     return world
